@@ -3,8 +3,187 @@
 //! of `core::fmt`, `core::str` and `core::num` as well. No logic of their own.
 #![allow(clippy::missing_safety_doc, improper_ctypes_definitions)]
 
-use sodg::{Hex, Label};
+use sodg::{Hex, Label, Sodg};
 use std::str::FromStr;
+
+macro_rules! inst {
+    ($n:literal) => {
+        const _: () = {
+            type G = Sodg<$n>;
+
+            #[export_name = concat!("s", stringify!($n), "_empty")]
+            pub unsafe extern "C" fn empty(out: *mut G, cap: usize) {
+                out.write(G::empty(cap));
+            }
+            #[export_name = concat!("s", stringify!($n), "_drop")]
+            pub unsafe extern "C" fn drop_(g: *mut G) {
+                std::ptr::drop_in_place(g);
+            }
+            #[export_name = concat!("s", stringify!($n), "_add")]
+            pub extern "C" fn add(g: &mut G, v: usize) {
+                g.add(v);
+            }
+            #[export_name = concat!("s", stringify!($n), "_bind")]
+            pub extern "C" fn bind(g: &mut G, v1: usize, v2: usize, a: &Label) {
+                g.bind(v1, v2, *a);
+            }
+            #[export_name = concat!("s", stringify!($n), "_put")]
+            pub extern "C" fn put(g: &mut G, v: usize, d: &Hex) {
+                g.put(v, d);
+            }
+            #[export_name = concat!("s", stringify!($n), "_data")]
+            pub unsafe extern "C" fn data(g: &mut G, v: usize, out: *mut Hex) -> bool {
+                match g.data(v) {
+                    Some(h) => {
+                        out.write(h);
+                        true
+                    }
+                    None => false,
+                }
+            }
+            #[export_name = concat!("s", stringify!($n), "_kid")]
+            pub extern "C" fn kid(g: &G, v: usize, a: &Label, out: &mut usize) -> bool {
+                match g.kid(v, *a) {
+                    Some(t) => {
+                        *out = t;
+                        true
+                    }
+                    None => false,
+                }
+            }
+            #[export_name = concat!("s", stringify!($n), "_kids")]
+            pub unsafe extern "C" fn kids(
+                g: &G,
+                v: usize,
+                labels: *mut Label,
+                targets: *mut usize,
+            ) -> usize {
+                let mut n = 0;
+                for (a, to) in g.kids(v) {
+                    labels.add(n).write(*a);
+                    targets.add(n).write(*to);
+                    n += 1;
+                }
+                n
+            }
+            #[export_name = concat!("s", stringify!($n), "_next_id")]
+            pub extern "C" fn next_id(g: &mut G) -> usize {
+                g.next_id()
+            }
+            #[export_name = concat!("s", stringify!($n), "_len")]
+            pub extern "C" fn len(g: &G) -> usize {
+                g.len()
+            }
+            #[export_name = concat!("s", stringify!($n), "_is_empty")]
+            pub extern "C" fn is_empty(g: &G) -> bool {
+                g.is_empty()
+            }
+            #[export_name = concat!("s", stringify!($n), "_keys")]
+            pub unsafe extern "C" fn keys(g: &G, out: *mut usize) -> usize {
+                let k = g.keys();
+                for (i, v) in k.iter().enumerate() {
+                    out.add(i).write(*v);
+                }
+                k.len()
+            }
+            #[export_name = concat!("s", stringify!($n), "_clone")]
+            pub unsafe extern "C" fn clone(g: &G, out: *mut G) {
+                out.write(g.clone());
+            }
+            #[export_name = concat!("s", stringify!($n), "_probe")]
+            pub extern "C" fn probe(g: &G, out: &mut [usize; 24]) {
+                g.verif_probe(out);
+            }
+            #[export_name = concat!("s", stringify!($n), "_to_xml")]
+            pub unsafe extern "C" fn to_xml(g: &G, out: *mut String) -> bool {
+                match g.to_xml() {
+                    Ok(s) => {
+                        out.write(s);
+                        true
+                    }
+                    Err(_) => false,
+                }
+            }
+            #[export_name = concat!("s", stringify!($n), "_to_dot")]
+            pub unsafe extern "C" fn to_dot(g: &G, out: *mut String) {
+                out.write(g.to_dot());
+            }
+            #[export_name = concat!("s", stringify!($n), "_debug")]
+            pub unsafe extern "C" fn debug(g: &G, out: *mut String) {
+                out.write(format!("{g:?}"));
+            }
+            #[export_name = concat!("s", stringify!($n), "_v_print")]
+            pub unsafe extern "C" fn v_print(g: &G, v: usize, out: *mut String) -> bool {
+                match g.v_print(v) {
+                    Ok(s) => {
+                        out.write(s);
+                        true
+                    }
+                    Err(_) => false,
+                }
+            }
+            #[export_name = concat!("s", stringify!($n), "_save")]
+            pub unsafe extern "C" fn save(g: &G, p: *const u8, len: usize) -> isize {
+                let path = std::str::from_utf8_unchecked(std::slice::from_raw_parts(p, len));
+                match g.save(std::path::Path::new(path)) {
+                    Ok(n) => n as isize,
+                    Err(_) => -1,
+                }
+            }
+            #[export_name = concat!("s", stringify!($n), "_load")]
+            pub unsafe extern "C" fn load(p: *const u8, len: usize, out: *mut G) -> bool {
+                let path = std::str::from_utf8_unchecked(std::slice::from_raw_parts(p, len));
+                match G::load(std::path::Path::new(path)) {
+                    Ok(g) => {
+                        out.write(g);
+                        true
+                    }
+                    Err(_) => false,
+                }
+            }
+            /// Offsets inside the edge map of this instantiation, found through
+            /// its public API: `[size, len_off, key0_off, val0_off, key1_off]`.
+            #[export_name = concat!("s", stringify!($n), "_edges_layout")]
+            pub extern "C" fn edges_layout(out: &mut [usize; 8]) {
+                let mut m: micromap::Map<Label, usize, $n> = micromap::Map::new();
+                let base = std::ptr::addr_of!(m) as usize;
+                m.insert(Label::Alpha(7), 9);
+                let (k0, v0) = {
+                    let (k, v) = m.iter().next().unwrap();
+                    (k as *const Label as usize, v as *const usize as usize)
+                };
+                out[0] = std::mem::size_of_val(&m);
+                out[2] = k0 - base;
+                out[3] = v0 - base;
+                out[4] = std::mem::size_of::<(Label, usize)>();
+                // `len` is the only other field: it is where the pairs are not
+                out[1] = if out[2].min(out[3]) >= 8 { 0 } else { out[0] - 8 };
+            }
+        };
+    };
+}
+
+inst!(1);
+inst!(2);
+inst!(3);
+
+/// Offsets inside a member list: `[size, next_off, item0_off, item_stride]`.
+#[no_mangle]
+pub extern "C" fn stack_layout(out: &mut [usize; 4]) {
+    let mut s: microstack::Stack<usize, 16> = microstack::Stack::new();
+    let base = std::ptr::addr_of!(s) as usize;
+    s.push(5);
+    s.push(6);
+    let mut it = s.iter();
+    let i0 = it.next().unwrap() as *const usize as usize;
+    let i1 = it.next().unwrap() as *const usize as usize;
+    out[0] = std::mem::size_of_val(&s);
+    out[2] = i0 - base;
+    out[3] = i1 - i0;
+    out[1] = if out[2] >= 8 { 0 } else { out[0] - 8 };
+}
+
+
 
 unsafe fn text<'a>(p: *const u8, len: usize) -> &'a str {
     std::str::from_utf8_unchecked(std::slice::from_raw_parts(p, len))
